@@ -740,9 +740,13 @@ def fuse(
     mappable = pipeline2.mappable
 
     def fused_key_func(out_key: ChunkKey) -> FunctionArgs[Any]:
-        return pipeline1.config.back_key_function(
+        function_args = pipeline1.config.back_key_function(
             pipeline2.config.back_key_function(out_key).args[0]
         )
+        # label the blocks with the fused operation's own output (not the intermediate
+        # array that was fused away), like every other key function does, so that the
+        # fused function is found when this operation is later fused as a predecessor
+        return FunctionArgs(*function_args.args, output_name=out_key.name)
 
     def fused_func(*args):
         return pipeline2.config.function(pipeline1.config.function(*args))
